@@ -1423,6 +1423,15 @@ func (bc *BlockChain) reorg(oldBlock, newBlock *types.Block) error {
 		addedTxs = append(addedTxs, newChain[i].Transactions()...)
 	}
 
+	// Delete any canonical number assignments above the new head: a reorg to a
+	// heavier but shorter branch would otherwise leave the old branch's blocks
+	// reachable by number above the head
+	for i := bc.CurrentBlock().NumberU64() + 1; ; i++ {
+		if GetCanonicalHash(bc.db, i) == (common.Hash{}) {
+			break
+		}
+		DeleteCanonicalHash(bc.db, i)
+	}
 	// regardless of WriteTxLookupEntries error
 	diff := types.TxDifference(deletedTxs, addedTxs)
 
